@@ -17,7 +17,7 @@ func CompileGlobs(globs []string) (*regexp.Regexp, error) {
 	// \] -> \?
 
 	var pattern strings.Builder
-	pattern.WriteRune('^')
+	pattern.WriteString("(?s)^(?:")
 	for i, g := range globs {
 		if i > 0 {
 			pattern.WriteRune('|')
@@ -48,7 +48,7 @@ func CompileGlobs(globs []string) (*regexp.Regexp, error) {
 				}
 			case '?':
 				pattern.WriteByte('.')
-			case '.', '+', '(', ')', '|', '{', '}', '^', '$':
+			case '.', '+', '(', ')', '|', '{', '}', '^', '$', '[', ']':
 				pattern.WriteByte('\\')
 				pattern.WriteByte(b)
 			default:
@@ -58,7 +58,7 @@ func CompileGlobs(globs []string) (*regexp.Regexp, error) {
 		}
 		pattern.WriteRune(')')
 	}
-	pattern.WriteRune('$')
+	pattern.WriteString(")$")
 
 	return regexp.Compile(pattern.String())
 }
